@@ -62,6 +62,8 @@ type crashGen struct {
 	s       *crashSession
 	seedCtr uint64
 	current map[string]bool // keys that currently have a value (to steer deletes / overwrites)
+	memKeys map[string]bool // keys written since the last rotation (they are in the current memstore / log file)
+	lastRot map[string]bool // keys of the memstore rotated last
 }
 
 func (g *crashGen) add(kind, line string) *crashOp {
@@ -123,7 +125,7 @@ func (g *crashGen) openLine(async bool, profile string) string {
 	m := mem[g.r.Intn(len(mem))]
 	switch profile {
 	case "tinymem":
-		m = []int{30, 60, 120}[g.r.Intn(3)]
+		m = []int{60, 120, 200}[g.r.Intn(3)]
 	case "compaction", "bigvalue":
 		m = []int{1 << 20, 1 << 30}[g.r.Intn(2)]
 		if profile == "bigvalue" {
@@ -162,6 +164,7 @@ func (g *crashGen) putKey(k, class string) {
 	o := g.add(kind, kind+" "+k+" "+tok)
 	o.Key, o.KeyTok, o.ValTok, o.Digest, o.Len = k, k, tok, dig, n
 	g.current[k] = true
+	g.memKeys[k] = true
 }
 
 func (g *crashGen) del() {
@@ -182,6 +185,7 @@ func (g *crashGen) del() {
 	o := g.add(kind, kind+" "+k)
 	o.Key, o.KeyTok = k, k
 	delete(g.current, k)
+	g.memKeys[k] = true
 }
 
 func (g *crashGen) get() {
@@ -191,7 +195,7 @@ func (g *crashGen) get() {
 }
 
 // a call the documented API rejects (C17): must return an error and leave nothing behind
-func (g *crashGen) invalidCall() {
+func (g *crashGen) newInvalidCall() *crashOp {
 	k := g.key()
 	tok, _, _ := g.value("small")
 	var line, kind string
@@ -211,23 +215,177 @@ func (g *crashGen) invalidCall() {
 	case 6:
 		kind, line = "putb", "putb - -"
 	}
-	o := g.add(kind, line)
+	o := &crashOp{Kind: kind, Line: line, BIdx: -1, EIdx: -1}
 	f := strings.Fields(line)
 	o.KeyTok, o.ValTok, o.Invalid = f[1], f[2], true
 	if f[1] != "." && f[1] != "-" {
 		o.Key = f[1]
+	}
+	return o
+}
+
+// a value of exactly n bytes
+func (g *crashGen) putKeyLen(k string, n int) {
+	b := make([]byte, n)
+	for i := range b {
+		b[i] = "abcdefghijklmnopqrstuvwxyz0123456789"[g.r.Intn(36)]
+	}
+	tag := fmt.Sprintf("%d.", len(g.s.Ops))
+	if len(tag) < n {
+		copy(b, tag)
+	}
+	kind := "put"
+	if g.r.Chance(35) {
+		kind = "putb"
+	}
+	tok := hex.EncodeToString(b)
+	o := g.add(kind, kind+" "+k+" "+tok)
+	o.Key, o.KeyTok, o.ValTok, o.Digest, o.Len = k, k, tok, crashDigest(b), n
+	g.current[k] = true
+	g.memKeys[k] = true
+}
+
+func (g *crashGen) rotate() {
+	g.add("rotate", "rotate")
+	g.lastRot, g.memKeys = g.memKeys, map[string]bool{}
+}
+
+func (g *crashGen) waitflush() { g.add("waitflush", "waitflush") }
+
+func (g *crashGen) sortedKeys(m map[string]bool) []string {
+	var out []string
+	for _, k := range g.s.Keys {
+		if m[k] {
+			out = append(out, k)
+		}
+	}
+	return out
+}
+
+// blockFlushedThenChange: a key whose put is already in a table (its log file is gone) is deleted or overwritten;
+// the change lives in the current log file only. The image after the acknowledgement must read the change.
+func (g *crashGen) blockFlushedThenChange(async bool) {
+	r := g.r
+	k := g.key()
+	if cur := g.sortedKeys(g.current); len(cur) > 0 && r.Chance(70) {
+		k = cur[r.Intn(len(cur))]
+	}
+	if !g.current[k] || r.Chance(30) {
+		g.putKey(k, "small")
+	}
+	g.rotate()
+	g.waitflush()
+	if r.Chance(65) {
+		kind := "del"
+		if r.Chance(35) {
+			kind = "delb"
+		}
+		o := g.add(kind, kind+" "+k)
+		o.Key, o.KeyTok = k, k
+		delete(g.current, k)
+		g.memKeys[k] = true
+	} else {
+		g.putKey(k, "small")
+	}
+	if r.Chance(40) {
+		o := g.add("get", "get "+k)
+		o.Key, o.KeyTok = k, k
+	}
+	if async || r.Chance(40) {
+		// the asynchronous log reaches the disk with the next rotation: images while that memstore is being flushed
+		other := g.key()
+		if other == k {
+			other = g.s.Keys[(g.r.Intn(len(g.s.Keys)-1)+1+g.keyIndex(k))%len(g.s.Keys)]
+		}
+		g.putKey(other, "small")
+		g.rotate()
+	}
+}
+
+func (g *crashGen) keyIndex(k string) int {
+	for i, c := range g.s.Keys {
+		if c == k {
+			return i
+		}
+	}
+	return 0
+}
+
+// blockSizeRotation: a rotation triggered by the memstore size inside a put (memstore limit M), on distinct keys that
+// stay untouched until the block is over; the flush completes; further writes; an explicit rotation without waiting.
+func (g *crashGen) blockSizeRotation(M int) {
+	g.rotate()
+	g.waitflush()
+	perm := append([]string{}, g.s.Keys...)
+	for i := len(perm) - 1; i > 0; i-- {
+		j := g.r.Intn(i + 1)
+		perm[i], perm[j] = perm[j], perm[i]
+	}
+	kl := func(i int) int { return len(perm[i]) / 2 }
+	// the first put fills the memstore to just below the limit, the second one exceeds it
+	g.putKeyLen(perm[0], M-kl(0)-3)
+	g.putKeyLen(perm[1], 20+g.r.Intn(10))
+	g.lastRot, g.memKeys = g.memKeys, map[string]bool{}
+	g.putKeyLen(perm[2], 8+g.r.Intn(6))
+	g.waitflush()
+	g.putKeyLen(perm[3], 4+g.r.Intn(6))
+	g.rotate()
+	g.putKeyLen(perm[0], 5+g.r.Intn(5))
+}
+
+// blockRotatePut: writes racing with the flush of the memstore just rotated - the directory holds two log files (the
+// same key in both, older value in the older file) and a partial table
+func (g *crashGen) blockRotatePut() {
+	r := g.r
+	for i := 0; i < 1+r.Intn(3); i++ {
+		g.put("small")
+	}
+	g.rotate()
+	keys := g.sortedKeys(g.lastRot)
+	n := 1 + r.Intn(2)
+	for i := 0; i < n && len(keys) > 0; i++ {
+		g.putKey(keys[r.Intn(len(keys))], "small")
+	}
+}
+
+func (g *crashGen) randomOps(n int, async bool, reopen bool) {
+	r, s := g.r, g.s
+	for end := len(s.Ops) + n; len(s.Ops) < end; {
+		x := r.Intn(100)
+		switch {
+		case x < 46:
+			g.put(g.pickValueClass())
+		case x < 58:
+			g.del()
+		case x < 64:
+			g.get()
+		case x < 74:
+			g.blockRotatePut()
+		case x < 80:
+			g.waitflush()
+		case x < 88:
+			g.add("compact", "compact")
+		default:
+			if reopen || r.Chance(40) {
+				g.add("close", "close")
+				g.add("open", g.openLine(async, s.Profile))
+				g.memKeys, g.lastRot = map[string]bool{}, map[string]bool{}
+			} else {
+				g.put("small")
+			}
+		}
 	}
 }
 
 func crashGenSession(seed uint64, idx int, tier, flavour string, rank int) *crashSession {
 	r := NewRng(seed, uint64(idx))
 	s := &crashSession{Idx: idx, Flavour: flavour, MaxStr: 4*1024*1024 + 70000}
-	g := &crashGen{r: r, tier: tier, s: s, current: map[string]bool{}}
+	g := &crashGen{r: r, tier: tier, s: s, current: map[string]bool{}, memKeys: map[string]bool{}, lastRot: map[string]bool{}}
 	if flavour == "wal" {
 		g.genWal(rank)
 		return s
 	}
-	nk := 3 + r.Intn(4)
+	nk := 4 + r.Intn(3)
 	for i := 0; i < nk; i++ {
 		k := []byte(fmt.Sprintf("k%d", i+1))
 		if i == nk-1 && r.Chance(40) {
@@ -235,7 +393,8 @@ func crashGenSession(seed uint64, idx int, tier, flavour string, rank int) *cras
 		}
 		s.Keys = append(s.Keys, hex.EncodeToString(k))
 	}
-	// profiles go round-robin per flavour (rank = number of earlier sessions of the same flavour), the most telling first
+	// profiles go round-robin per flavour (rank = number of earlier sessions of the same flavour): every run of at
+	// least five (six) sessions of a flavour holds every profile, whatever the seed
 	var profiles []string
 	switch flavour {
 	case "sync":
@@ -250,10 +409,11 @@ func crashGenSession(seed uint64, idx int, tier, flavour string, rank int) *cras
 	}
 	s.Profile = profiles[rank%len(profiles)]
 	async := flavour == "async"
-	g.add("open", g.openLine(async, s.Profile))
-	budget := 14 + r.Intn(14)
+	open := g.openLine(async, s.Profile)
+	g.add("open", open)
+	extra := 0
 	if tier == "thorough" {
-		budget = 25 + r.Intn(50)
+		extra = 10 + r.Intn(30)
 	}
 	switch s.Profile {
 	case "compaction":
@@ -267,27 +427,29 @@ func crashGenSession(seed uint64, idx int, tier, flavour string, rank int) *cras
 					g.put(g.pickValueClass())
 				}
 			}
-			g.add("rotate", "rotate")
+			g.rotate()
 			if r.Chance(80) {
-				g.add("waitflush", "waitflush")
+				g.waitflush()
 			}
 		}
 		if r.Chance(50) {
 			g.put("small")
 		}
-		g.add("waitflush", "waitflush")
+		g.waitflush()
 		g.add("compact", "compact")
 		for j := 0; j < r.Intn(3); j++ {
 			g.put("small")
 		}
 		if r.Chance(50) {
-			g.add("rotate", "rotate")
-			g.add("waitflush", "waitflush")
+			g.rotate()
+			g.waitflush()
 			g.add("compact", "compact")
 		}
+		g.randomOps(extra, async, false)
+		g.blockFlushedThenChange(async)
 	case "bigvalue":
-		// a record larger than the WAL write buffer: the log file holds a torn record between two write calls.
-		// Kept short, every image carries the big file.
+		// more than the 4 MiB log buffer is logged, then a rotation: the log file holds a torn record between two
+		// write calls. Kept short, every image carries the big file.
 		g.put("small")
 		if async {
 			g.putKey(s.Keys[0], "halfmib")
@@ -299,70 +461,31 @@ func crashGenSession(seed uint64, idx int, tier, flavour string, rank int) *cras
 			g.putKey(s.Keys[0], "mib")
 			g.put("small")
 		}
-		if r.Chance(50) {
-			g.add("rotate", "rotate")
-			g.put("small")
-		}
-	default:
-		for len(s.Ops) < budget {
-			x := r.Intn(100)
-			switch {
-			case x < 46:
-				g.put(g.pickValueClass())
-			case x < 58:
-				g.del()
-			case x < 64:
-				g.get()
-			case x < 76 || (s.Profile == "rotateput" && x < 86):
-				g.add("rotate", "rotate")
-				// writes racing with the flush: the directory holds two log files and a partial table
-				if r.Chance(70) {
-					n := 1 + r.Intn(2)
-					for i := 0; i < n; i++ {
-						if len(g.current) > 0 && r.Chance(70) {
-							for _, c := range s.Keys {
-								if g.current[c] {
-									g.putKey(c, "small")
-									break
-								}
-							}
-						} else {
-							g.put("small")
-						}
-					}
-				}
-			case x < 82:
-				g.add("waitflush", "waitflush")
-			case x < 90:
-				g.add("compact", "compact")
-			default:
-				if s.Profile == "reopen" || r.Chance(40) {
-					g.add("close", "close")
-					g.add("open", g.openLine(async, s.Profile))
-				} else {
-					g.put("small")
-				}
-			}
-			if flavour == "reject" && r.Chance(30) {
-				g.invalidCall()
-			}
-			if flavour == "reject" && r.Chance(6) {
-				// accepted by both flavours: deletes the empty key and nothing else
-				if r.Chance(50) {
-					o := g.add("del", "del .")
-					o.KeyTok = "."
-				} else {
-					o := g.add("delb", "delb -")
-					o.KeyTok = "-"
-				}
-			}
-		}
-	}
-	if flavour == "reject" {
-		// rejected calls right before the end, a rotation and a restart: the log they must not reach is replayed
-		g.invalidCall()
+		g.rotate()
 		g.put("small")
-		g.invalidCall()
+	case "tinymem":
+		M := 60
+		fmt.Sscanf(open[strings.Index(open, "mem=")+4:], "%d", &M)
+		g.randomOps(1+r.Intn(3), async, false)
+		g.blockSizeRotation(M)
+		g.randomOps(3+r.Intn(4)+extra, async, false)
+		g.blockFlushedThenChange(async)
+	case "rotateput":
+		for i := 0; i < 3+r.Intn(2); i++ {
+			g.blockRotatePut()
+			if r.Chance(30) {
+				g.waitflush()
+			}
+		}
+		g.randomOps(extra, async, false)
+		g.blockFlushedThenChange(async)
+		g.blockRotatePut()
+	case "reopen":
+		g.randomOps(10+r.Intn(6)+extra, async, true)
+		g.blockFlushedThenChange(async)
+	default:
+		g.randomOps(10+r.Intn(8)+extra, async, false)
+		g.blockFlushedThenChange(async)
 	}
 	switch r.Intn(4) {
 	case 0:
@@ -376,11 +499,42 @@ func crashGenSession(seed uint64, idx int, tier, flavour string, rank int) *cras
 		}
 		g.add("close", "close")
 	case 2:
-		g.add("rotate", "rotate")
+		g.rotate()
 		g.add("close", "close")
 	default:
 		// the process just ends - after the flusher went idle, so that no system call is cut by the exit
-		g.add("waitflush", "waitflush")
+		g.waitflush()
+	}
+	if flavour == "reject" {
+		// rejected calls everywhere the database is open - also right before a rotation, a close and a restart: the
+		// log they must not reach is replayed
+		var out []*crashOp
+		isOpen := false
+		for i, o := range s.Ops {
+			last := i == len(s.Ops)-1
+			if isOpen && (o.Kind == "close" || o.Kind == "rotate" || last) && r.Chance(60) {
+				out = append(out, g.newInvalidCall())
+			}
+			out = append(out, o)
+			switch o.Kind {
+			case "open":
+				isOpen = true
+			case "close":
+				isOpen = false
+			}
+			if isOpen && r.Chance(22) {
+				out = append(out, g.newInvalidCall())
+			}
+			if isOpen && r.Chance(4) {
+				// accepted by both flavours: deletes the empty key and nothing else
+				if r.Chance(50) {
+					out = append(out, &crashOp{Kind: "del", Line: "del .", KeyTok: ".", BIdx: -1, EIdx: -1})
+				} else {
+					out = append(out, &crashOp{Kind: "delb", Line: "delb -", KeyTok: "-", BIdx: -1, EIdx: -1})
+				}
+			}
+		}
+		s.Ops = out
 	}
 	return s
 }
@@ -411,6 +565,18 @@ func (g *crashGen) genWal(rank int) {
 	if s.Profile == "bigrecord" {
 		n = 5
 	}
+	rec := func(kind string, ln int, tag int) {
+		b := r.Bytes(ln)
+		if ln > 0 {
+			b[0] = byte(tag)
+		}
+		tok := hex.EncodeToString(b)
+		if ln == 0 {
+			tok = "."
+		}
+		o := g.add(kind, kind+" "+tok)
+		o.ValTok, o.Digest, o.Len = tok, crashDigest(b), ln
+	}
 	for i := 0; i < n; i++ {
 		x := r.Intn(100)
 		if x < 10 {
@@ -426,7 +592,13 @@ func (g *crashGen) genWal(rank int) {
 		y := r.Intn(100)
 		switch {
 		case s.Profile == "bigrecord" && i == 2:
+			// between one and two write buffers: the buffered writer flushes once and keeps the tail
+			kind = "appendsync"
 			tok, dig, ln = g.value("mib")
+		case buf > 0 && y >= 80:
+			// a synchronous append of a record between one and two write buffers long
+			rec("appendsync", buf+r.Intn(buf), i)
+			continue
 		case y < 6:
 			tok, dig, ln = ".", ".", 0
 		case y < 9:
@@ -437,19 +609,26 @@ func (g *crashGen) genWal(rank int) {
 			if ln > 5000 {
 				ln = 300 + r.Intn(300)
 			}
-			b := r.Bytes(ln)
-			b[0] = byte(i)
-			tok, dig = hex.EncodeToString(b), crashDigest(b)
+			rec(kind, ln, i)
+			continue
 		default:
-			ln = 1 + r.Intn(50)
-			b := r.Bytes(ln)
-			b[0] = byte(i)
-			tok, dig = hex.EncodeToString(b), crashDigest(b)
+			rec(kind, 1+r.Intn(50), i)
+			continue
 		}
 		o := g.add(kind, kind+" "+tok)
 		o.ValTok, o.Digest, o.Len = tok, dig, ln
 	}
-	if r.Chance(60) {
+	switch {
+	case s.Profile == "bigrecord" || (buf > 0 && r.Chance(70)):
+		// the process goes idle right after a synchronous append of such a record
+		if buf > 0 {
+			rec("appendsync", buf+r.Intn(buf), 255)
+		} else {
+			tok, dig, ln := g.value("mib")
+			o := g.add("appendsync", "appendsync "+tok)
+			o.ValTok, o.Digest, o.Len = tok, dig, ln
+		}
+	case r.Chance(60):
 		g.add("walclose", "walclose")
 	}
 }
